@@ -281,7 +281,7 @@ def uops_of(case, fi, chosen=None):
     return [(F(repr(float(c))) if isinstance(c, float) else F(c), list(ps)) for c, ps in us]
 
 
-def feasibility(case, out, eps_pair=F(5, 1000)):
+def feasibility(case, out, eps_pair=F(1, 100)):
     """C01 oracle on the implementation's output.  Returns list of (kind, text)."""
     bad = []
     if out[0] != "ok":
